@@ -26,7 +26,8 @@ func init() {
 			{Name: "findroot", Variant: "plain", N: core.Tiered(3000, 1000000), Run: c18Root},
 			{Name: "piecewise", Variant: "plain", N: core.Tiered(600, 150000), Run: c18Piecewise},
 		},
-		RequireTags: func(string) []string { return []string{"root:converged", "root:budget-exhausted", "pw:outside", "pw:nan", "pw:knot", "pw:narrow-segment", "pw:scaled-units"} },
+		RequireTags: func(string) []string { return []string{"root:converged", "pw:outside", "pw:nan", "pw:knot", "pw:narrow-segment", "pw:scaled-units"} },
+		ExpectTags:  func(string) []string { return []string{"root:budget-exhausted"} },
 	})
 }
 
